@@ -796,6 +796,7 @@ func (enc *VP8Encoder) importImage(img image.Image) {
 		for wi := 0; wi < nWorkers; wi++ {
 			startY := wi * padH / nWorkers
 			endY := (wi + 1) * padH / nWorkers
+			verifhook.Range("import-y", 0, padH, wi, nWorkers, startY, endY)
 			ywg.Add(1)
 			go func(startY, endY int) {
 				defer ywg.Done()
@@ -875,6 +876,7 @@ func (enc *VP8Encoder) importImage(img image.Image) {
 		for wi := 0; wi < nUVWorkers; wi++ {
 			startPair := wi * halfPadH / nUVWorkers
 			endPair := (wi + 1) * halfPadH / nUVWorkers
+			verifhook.Range("import-uv", 0, halfPadH, wi, nUVWorkers, startPair, endPair)
 			uvwg.Add(1)
 			go func(startPair, endPair int) {
 				defer uvwg.Done()
